@@ -200,6 +200,13 @@ def dump_quantity(quantity, version=LATEST_VER):
 
 
 def dump_decimal(decimal, version=LATEST_VER):
+    # Project Haystack spells the non-finite numbers INF, -INF and NaN
+    if decimal != decimal:
+        return 'NaN'
+    elif decimal == float('inf'):
+        return 'INF'
+    elif decimal == float('-inf'):
+        return '-INF'
     return str(decimal)
 
 
